@@ -701,9 +701,10 @@ def tet_compute_gradient(tet, vfunc):
     e4 = v3 - v1
     e5 = v3 - v2
     # Compute cross product and  1 / (6 * vol) for each tetrahedron:
+    # (signed, so that the gradient does not depend on the tetra orientation)
     cr = np.cross(e0, e2)
-    vol = np.abs(np.sum(e3 * cr, axis=1))
-    vol[vol < sys.float_info.epsilon] = 1  # avoid division by zero
+    vol = np.sum(e3 * cr, axis=1)
+    vol[np.abs(vol) < sys.float_info.epsilon] = 1  # avoid division by zero
     voli = np.divide(1.0, vol)[:, np.newaxis]
     # sum weighted edges
     # c0 = vfunc[t[:,0],np.newaxis] * np.cross(,)
@@ -757,6 +758,10 @@ def tet_compute_divergence(tet, tfunc):
     n1 = np.cross(e3, e2)
     n2 = np.cross(e0, e3)
     n3 = np.cross(e2, e0)
+    # normals point outwards for negative and inwards for positive orientation,
+    # flip them so that the result does not depend on the tetra orientation
+    sgn = np.sign((e3 * n3).sum(1))[:, np.newaxis]
+    n0, n1, n2, n3 = sgn * n0, sgn * n1, sgn * n2, sgn * n3
     # sum contributions to vertices
     x0 = (n0 * tfunc).sum(1)
     x1 = (n1 * tfunc).sum(1)
